@@ -9,17 +9,29 @@ Open Scope Z_scope.
 
 (* the model's OAddW divides by the literal 100: that is TopWeight *)
 Lemma model_divides_by_TopWeight : forall vh R s x w,
-  step vh R s (OAddW x w) = add_with_replicas vh R x (Z.quot (R * w) TopWeight) s.
+  step vh R s (OAddW x w) = add_with_replicas vh R x (Z.quot (wrap64 (R * w)) TopWeight) s.
 Proof. reflexivity. Qed.
+
+(* no wrap-around while the product fits Go's int: every weight up to 2^63 / h.replicas *)
+Lemma wrap64_id : forall z, -9223372036854775808 <= z < 9223372036854775808 -> wrap64 z = z.
+Proof. intros z Hz. unfold wrap64. rewrite Z.mod_small by lia. lia. Qed.
+
+(* ... beyond that it does wrap: with h.replicas = 100, weight 92233720368547759 (> 2^63 / 100) gives a
+   NEGATIVE product, hence no virtual node at all (replayed on the real code: the node owns no key) *)
+Example weight_overflow :
+  clamp 100 (Z.quot (wrap64 (100 * 92233720368547759)) TopWeight) = 0 /\
+  clamp 100 (Z.quot (wrap64 (100 * 92233720368547758)) TopWeight) = 100.
+Proof. vm_compute. auto. Qed.
 
 (* h.replicas >= minReplicas >= TopWeight: a node added with weight >= 1 gets at least one
    virtual node — so cache.New / kv.NewStore (which require a positive total weight) never
    build an empty ring, and ErrNoRedisNode / errNotFound-for-no-node are unreachable through
    them *)
 Lemma positive_weight_gets_a_virtual_node : forall R w,
-  minReplicas <= R -> 1 <= w -> 1 <= clamp R (Z.quot (R * w) TopWeight).
+  minReplicas <= R -> 1 <= w -> R * w < 9223372036854775808 ->
+  1 <= clamp R (Z.quot (wrap64 (R * w)) TopWeight).
 Proof.
-  unfold minReplicas, TopWeight, clamp. intros R w HR Hw.
+  unfold minReplicas, TopWeight, clamp. intros R w HR Hw Hfit. rewrite wrap64_id by nia.
   assert (1 <= Z.quot (R * w) 100).
   { rewrite Z.quot_div_nonneg by nia. apply Z.div_le_lower_bound; nia. }
   lia.
@@ -27,9 +39,10 @@ Qed.
 
 (* weight = TopWeight (and anything above) gives all h.replicas virtual nodes *)
 Lemma top_weight_gets_all_replicas : forall R w,
-  0 <= R -> TopWeight <= w -> clamp R (Z.quot (R * w) TopWeight) = R.
+  0 <= R -> TopWeight <= w -> R * w < 9223372036854775808 ->
+  clamp R (Z.quot (wrap64 (R * w)) TopWeight) = R.
 Proof.
-  unfold TopWeight, clamp. intros R w HR Hw.
+  unfold TopWeight, clamp. intros R w HR Hw Hfit. rewrite wrap64_id by nia.
   assert (R <= Z.quot (R * w) 100).
   { rewrite Z.quot_div_nonneg by nia. apply Z.div_le_lower_bound; nia. }
   lia.
@@ -37,9 +50,10 @@ Qed.
 
 (* weight <= 0 gives none: the node is in the node set but owns no key *)
 Lemma nonpositive_weight_gets_nothing : forall R w,
-  0 <= R -> w <= 0 -> clamp R (Z.quot (R * w) TopWeight) = 0.
+  0 <= R -> w <= 0 -> -9223372036854775808 <= R * w ->
+  clamp R (Z.quot (wrap64 (R * w)) TopWeight) = 0.
 Proof.
-  unfold TopWeight, clamp. intros R w HR Hw.
+  unfold TopWeight, clamp. intros R w HR Hw Hfit. rewrite wrap64_id by nia.
   assert (Z.quot (R * w) 100 <= 0).
   { rewrite <- (Z.opp_involutive (R * w)), Z.quot_opp_l by lia.
     assert (0 <= Z.quot (- (R * w)) 100) by (apply Z.quot_pos; nia). lia. }
@@ -48,9 +62,10 @@ Qed.
 
 (* the replica count is monotone in the weight *)
 Lemma weight_monotone : forall R w1 w2,
-  0 <= R -> 0 <= w1 <= w2 -> clamp R (Z.quot (R * w1) TopWeight) <= clamp R (Z.quot (R * w2) TopWeight).
+  0 <= R -> 0 <= w1 <= w2 -> R * w2 < 9223372036854775808 ->
+  clamp R (Z.quot (wrap64 (R * w1)) TopWeight) <= clamp R (Z.quot (wrap64 (R * w2)) TopWeight).
 Proof.
-  unfold TopWeight, clamp. intros R w1 w2 HR Hw.
+  unfold TopWeight, clamp. intros R w1 w2 HR Hw Hfit. rewrite !wrap64_id by nia.
   assert (Z.quot (R * w1) 100 <= Z.quot (R * w2) 100).
   { rewrite !Z.quot_div_nonneg by nia. apply Z.div_le_mono; nia. }
   lia.
